@@ -68,7 +68,11 @@ def check_case(rules, rng):
     c = {'kind': 'check', 'rules': [[n, ev.strip(t)] for n, t in rules], 'ok': 0, 'raised': 0, 'terminated': 1, 'crashed': 0,
          '_texts': texts}
     try:
-        e = ev.make_enforcer(texts, ('opt', None), via=rng.choice(['rules_obj', 'dict']))
+        # the default-rule setting is a free variable: unset, the library default name
+        # 'default', or one of the names of the graph (validation must not let an undefined
+        # reference pass because a fallback rule exists)
+        dflt = rng.choice([('opt', None), None, ('name', sorted(texts)[0]), ('opt', sorted(texts)[-1])])
+        e = ev.make_enforcer(texts, dflt, via=rng.choice(['rules_obj', 'dict']))
         c['ok'] = 1 if e.check_rules() else 0
         try:
             e.check_rules(raise_on_violation=True)
@@ -160,6 +164,8 @@ def rand_graph(rng, nn):
         return (ev.And if r < 0.65 else ev.Or)(*[body(max(1, (size - 1) // 2)) for _ in range(2)])
     # mostly acyclic (references forward) with occasional back edges
     rules = []
+    if rng.random() < 0.3:
+        names = names[:-1] + ['default']
     for i, n in enumerate(names):
         b = body(rng.choice([1, 2, 3, 5]))
         rules.append((n, b))
